@@ -37,6 +37,7 @@ var c11Probes = []string{
 	".. | (select(kind == \"seq\") | sort)", ".. | (select(kind == \"map\") | keys)", ".. | (select(kind == \"seq\") | .[0])", ".. | select(tag == \"!!str\") | length", "[.. | select(tag == \"!!int\")] | sort", "[..] | sort", "[..] | unique", "[..] | group_by(tag)", "[..] | min", "[..] | max", "[..] | reverse | .[0]",
 	"omit([\"a\"])", "pick([\"a\", \"id\"])", "pick([0])", "array_to_map", ".. | alias", ".. | style", "format_datetime(\"2006\")", "to_unix", "from_unix", "tz(\"UTC\")", "eval(\".\")", "eval(.id)", "eval(.a)", "eval(.e)", ".p | eval(.)", "eval(\"eval(.a)\")", "collect", "filter(.)", "flatten(1)", "first", "kind", "is_key", "document_index", "filename", "file_index",
 	"\" \" | from_json", "\"\" | from_yaml", "\"\\n\" | from_csv", "\" \" | from_yaml", "\"\\t\" | from_props", "\" \" | @jsond", "\" \" | from_xml", "\"\" | @base64d", ".b | from_json", "[.. | select(tag == \"!!str\") | from_yaml]",
+	".a alias = \"nope\"", ".id alias = \"nope\"", ".. alias = \"x\"", ".a anchor = \"x\" | .b alias = \"x\"", ".[] alias = \"q\"", ".a alias |= \"z\"", ".c alias = \"missing\" | explode(.)",
 	"flatten( 1 )", "to_json( 0 )", "parent( 1 )", "to_yaml( 2 )", "to_xml( 1 )", "flatten(1 )", "flatten( 1)", "parent(  2  )", "to_json(\t0)", "flatten()", "parent()", "to_json()",
 	".a[", ".a |", "(", ")", "[", "{", "}", ".. |", "| .", ".[", "\"", ".a as", "$x", ".. | .. | ..", ".[] |= (.. | .)", "..|=\"x\"", ".a = .b = .c", ". as $x | $x | $x", "..[]", ".[][]", ".[].[]", "....", ".a.[0]", ".\"a\"", ".[\"a\"]", ".a?", ".[]?", "-1", "--1", "1 -", ".a //", "// .a",
 }
